@@ -16,7 +16,9 @@ RULE = ("event streams of 0-6 blocks: optional id (also empty, with NUL), event 
         "colon, no space after colon, two spaces), retry (digits, leading zeros, empty, '+5', '1_0', ' 20', "
         "non-ASCII digits, 4300/4301 digits), comments, unknown fields, UTF-8 text; every line ends in CRLF, LF or CR "
         "chosen per line (uniform or mixed), streams end with or without the final blank line, possibly on a lone "
-        "CR; delivered plain to EventSource, or to Respondent as a close-delimited or chunked (random chunk "
+        "CR; delivered plain to EventSource, or to Respondent (response head with header names and values - "
+        "Content-Type, Transfer-Encoding, Content-Length, Connection - in any case mix and with optional blanks "
+        "around the values) as a close-delimited or chunked (random chunk "
         "boundaries; every chunk size in a random spelling: lower / UPPER / miXed case hex letters, leading zeros, "
         "blank padding; chunks from 1 byte to several hundred) text/event-stream response; reads: random cuts, every byte, inside every CRLF, whole.  "
         "Histories: one Respondent over 1-4 consecutive event-stream responses (chunked or close-delimited, complete "
@@ -35,6 +37,43 @@ MODELLED = ["UTF-8 decoding (events are compared as UTF-8 bytes; generated strea
 h, unh = K.h, K.unh
 HEAD_UNTIL = b"HTTP/1.1 200 OK\r\nContent-Type: text/event-stream\r\n\r\n"
 HEAD_CHUNKED = b"HTTP/1.1 200 OK\r\nContent-Type: text/event-stream\r\nTransfer-Encoding: chunked\r\n\r\n"
+
+
+def _mix(rng, text):
+    r = rng.random()
+    if r < 0.25:
+        return text
+    if r < 0.45:
+        return text.upper()
+    if r < 0.6:
+        return text.lower()
+    if r < 0.75:
+        return text.title()
+    return bytes(c ^ 0x20 if (65 <= c <= 90 or 97 <= c <= 122) and rng.random() < 0.5 else c for c in text)
+
+
+def gen_head(rng, mode):
+    """response head of an event stream with header names and values in any case mix and optional blanks around the
+    values (the line still needs its ': ')"""
+    ows = lambda: rng.choice([b"", b"", b" ", b"\t", b"  "])
+    hdrs = [_mix(rng, b"Content-Type") + b": " + ows() + _mix(rng, b"text/event-stream") + rng.choice([b"", b"", b"; charset=utf-8"]) + ows()]
+    if mode == "chunked":
+        hdrs.append(_mix(rng, b"Transfer-Encoding") + b": " + ows() + _mix(rng, b"chunked") + ows())
+        if rng.random() < 0.2:
+            hdrs.append(_mix(rng, b"Content-Length") + b": " + ows() + b"%d" % rng.randint(0, 50))
+    if rng.random() < 0.4:
+        hdrs.append(_mix(rng, b"Connection") + b": " + ows() + _mix(rng, rng.choice([b"keep-alive", b"close"])) + ows())
+    if rng.random() < 0.3:
+        hdrs.append(_mix(rng, b"Cache-Control") + b": no-cache")
+    rng.shuffle(hdrs)
+    status = rng.choice([b"HTTP/1.1 200 OK", b"HTTP/1.1 200 OK", b"HTTP/1.0 200 OK" if mode != "chunked" else b"HTTP/1.1 200"])
+    return status + b"\r\n" + b"".join(x + b"\r\n" for x in hdrs) + b"\r\n"
+
+
+def head_of(conn):
+    if conn.get("head"):
+        return unh(conn["head"])
+    return HEAD_CHUNKED if conn["mode"] == "chunked" else HEAD_UNTIL
 
 
 # ----------------------------------------------------------------------------- reference (WHATWG, whole stream)
@@ -124,7 +163,7 @@ def run_history(init, conns):
                 err = "HTTPExc"
 
         start = [p.leid, p.retry]
-        head = HEAD_CHUNKED if conn["mode"] == "chunked" else HEAD_UNTIL
+        head = head_of(conn)
         for piece in K.cut(head, conn.get("head_cuts", [])):      # the response head may itself arrive in pieces
             msg.extend(piece)
             pump()
@@ -198,7 +237,7 @@ def run_deliver(case):
     reads = [unh(x) for x in case["reads"]]
     pre = [{"id": None, "name": "preloaded", "data": str(i)} for i in range(case.get("preload", 0))]
     mine = deque(pre)
-    head = HEAD_CHUNKED if case["body"] == "chunked" else HEAD_UNTIL
+    head = unh(case["head"]) if case.get("head") else (HEAD_CHUNKED if case["body"] == "chunked" else HEAD_UNTIL)
     ident, err, es = {}, None, None
     try:
         if case["level"] == "source":
@@ -252,10 +291,10 @@ def run_deliver(case):
             "left": h(es.raw) if es else "", "n_mine": len(got)}
 
 
-def run_mode(mode, reads):
+def run_mode(mode, reads, head=None):
     if mode == "plain":
         return run_plain(reads)
-    return run_history(None, [{"mode": mode, "reads": reads}])[0]
+    return run_history(None, [{"mode": mode, "reads": reads, "head": head}])[0]
 
 
 def run_impl(case):
@@ -263,7 +302,7 @@ def run_impl(case):
         return run_deliver(case)
     if case["mode"] == "history":
         return {"conns": run_history(case.get("init"), [dict(c, reads=[unh(x) for x in c["reads"]]) for c in case["conns"]])}
-    return run_mode(case["mode"], [unh(x) for x in case["reads"]])
+    return run_mode(case["mode"], [unh(x) for x in case["reads"]], case.get("head"))
 
 
 def _canon(o):
@@ -352,7 +391,7 @@ def oracle(case, obs):
     if case["mode"] == "history":
         return oracle_history(case, obs)
     reads = [unh(x) for x in case["reads"]]
-    whole = run_mode(case["mode"], [b"".join(reads)])
+    whole = run_mode(case["mode"], [b"".join(reads)], case.get("head"))
     if _canon(whole) != _canon(obs) and case["mode"] != "chunked":
         return f"result depends on fragmentation: split {_canon(obs)} vs whole {_canon(whole)}"
     if case["mode"] == "chunked" and (whole["events"], whole["leid"], whole["retry"], whole["err"]) != \
@@ -438,12 +477,16 @@ def _gen_case(rng):
             pts = sorted(set(pts + [i + 1 for i in range(len(body) - 1) if body[i:i + 2] == b"\r\n"]))
         chunks = K.cut(body, pts)
         wire = _enc_chunks(chunks, rng)
-        return {"mode": mode, "chunks": [h(c) for c in chunks], "reads": [h(x) for x in K.cut(wire, K._rand_cuts(rng, wire))]}
+        return {"mode": mode, "chunks": [h(c) for c in chunks], "reads": [h(x) for x in K.cut(wire, K._rand_cuts(rng, wire))],
+                "head": h(gen_head(rng, mode))}
     cuts = K._rand_cuts(rng, body) if body else []
     inside = [i + 1 for i in range(len(body) - 1) if body[i:i + 2] == b"\r\n"]
     if inside and rng.random() < 0.6:
         cuts = list(cuts) + [rng.choice(inside)]
-    return {"mode": mode, "reads": [h(x) for x in K.cut(body, cuts)] if body else [h(b"")]}
+    case = {"mode": mode, "reads": [h(x) for x in K.cut(body, cuts)] if body else [h(b"")]}
+    if mode == "until":
+        case["head"] = h(gen_head(rng, mode))
+    return case
 
 
 ID_LESS = [": keep-alive\n\n", "data: no id here\n\n", "retry: 2500\n\n", "event: ping\ndata: p\r\n\r\n", ":\r\r",
@@ -476,10 +519,10 @@ def _gen_conn(rng, idless_first):
         wire = body
     r = rng.random()
     cuts = list(range(1, len(wire))) if r < 0.2 and len(wire) < 400 else K._rand_cuts(rng, wire)
-    head = HEAD_CHUNKED if mode == "chunked" else HEAD_UNTIL
+    head = gen_head(rng, mode)
     hl = [i + 2 for i in range(len(head) - 2) if head[i:i + 2] == b"\r\n"]
     head_cuts = rng.choice([[], [], hl[:1], hl, [rng.randrange(1, len(head))]])
-    return {"mode": mode, "reads": [h(x) for x in K.cut(wire, cuts)], "cut": cutoff,
+    return {"mode": mode, "reads": [h(x) for x in K.cut(wire, cuts)], "cut": cutoff, "head": h(head),
             "head_cuts": head_cuts, "idle": rng.choice([0, 0, 1, 2, 3])}
 
 
@@ -496,6 +539,8 @@ def _gen_deliver(rng, level=None, preload=None):
     else:
         wire = body
     case["reads"] = [h(x) for x in K.cut(wire, K._rand_cuts(rng, wire))]
+    if level != "source":
+        case["head"] = h(gen_head(rng, kind))
     return case
 
 
@@ -557,6 +602,19 @@ def directed():
         out.append(hc)
         out.append({"mode": "deliver", "level": "client", "body": "chunked", "preload": 1, "chunks": [h(c) for c in big],
                     "reads": [h(x) for x in K.cut(wire, [30, 300])]})
+    # header names / values in other spellings, chunk boundaries inside events (seeded C15-13: coding name matched
+    # case-sensitively; finding D43: blanks around the value)
+    evs = b"id: 5\nevent: tick\ndata: alpha\ndata: beta\n\nretry: 40\nid: 6\ndata: gamma\n\n"
+    inner = [evs[:9], evs[9:25], evs[25:40], evs[40:]]
+    for te_name, te_val, ct in ((b"Transfer-Encoding", b"Chunked", b"text/event-stream"), (b"TRANSFER-ENCODING", b"CHUNKED", b"TEXT/EVENT-STREAM"),
+                                (b"transfer-encoding", b"cHuNkEd", b"Text/Event-Stream; charset=utf-8"),
+                                (b"Transfer-encoding", b" chunked ", b" text/event-stream"), (b"tRANSFER-eNCODING", b"\tCHUNKED", b"text/EVENT-stream\t")):
+        head = b"HTTP/1.1 200 OK\r\n" + te_name + b": " + te_val + b"\r\nCONTENT-type: " + ct + b"\r\n\r\n"
+        wire = _enc_chunks(inner)
+        out.append({"mode": "chunked", "chunks": [h(c) for c in inner], "reads": [h(wire)], "head": h(head)})
+        out.append({"mode": "chunked", "chunks": [h(c) for c in inner], "reads": [h(x) for x in K.cut(wire, list(range(1, len(wire), 7)))], "head": h(head)})
+        out.append({"mode": "deliver", "level": "client", "body": "chunked", "preload": 0, "chunks": [h(c) for c in inner],
+                    "reads": [h(x) for x in K.cut(wire, [20, 50])], "head": h(head)})
     # D14 witnesses: CRLF split between reads / chunks; mixed terminators
     out.append({"mode": "plain", "reads": [h(b"data: x\r"), h(b"\n\r"), h(b"\ndata: y\r\n\r\n")]})
     out.append(_chunked_case([b"data: x\r", b"\n\r", b"\ndata: y\r\n\r\n"]))
